@@ -62,6 +62,12 @@ deriving DecidableEq, Repr
 
 def Api.get (a : Api) (n : Str) : Option Cond := a.objs.find? (fun c => c.name = n)
 
+/-- The API the limiter talks to is the control plane this tree serves: a write to the MAIN resource (all the store
+    ever does) keeps the submitted spec AND status because `ratelimitconditions` is registered WITHOUT a status
+    subresource strategy (regenerated from rest.go + apiserver-runtime's strategy.go). `Api.write` relies on it;
+    `KG.Props.C19.api_persists_status` makes it an obligation; the harness applies the real served strategy. -/
+def servedKeepsStatus : Bool := KG.Gen.C19.mainResourceWritesPersistStatus
+
 /-- store `c` under its name with a fresh resourceVersion -/
 def Api.write (a : Api) (c : Cond) : Api :=
   { objs := { c with rv := a.nextRv } :: a.objs.filter (fun d => ¬ d.name = c.name), nextRv := a.nextRv + 1 }
